@@ -122,7 +122,7 @@ def check_case(ctx, text, doc, cls, exotic_seed=None):
     from rt.jp_oracle import equivalent_envs
 
     ctx.evaluation()
-    case = {"text": text, "doc": doc, "class": cls}
+    case = {"text": text, "doc": doc, "class": cls} if cls != "surrogates" else {"kind": "surrogates"}
     plain_doc = doc
     if exotic_seed is not None:
         # the same JSON value held in other Mapping/Sequence implementations and subclasses of str/int/float (keys too);
@@ -284,6 +284,29 @@ def run_threads(ctx, rounds):
             return
 
 
+def run_surrogates(ctx):
+    """Member names holding surrogate code points as such: a high and a low one next to each other are TWO characters,
+    a different name from the astral character the pair would encode in UTF-16. Only Python-built documents can have
+    them, and a replay file cannot hold them, so the class is replayed as a whole."""
+    split, astral = "\ud83d\ude00", "\U0001f600"
+    docs = [{split: "split", astral: "astral", "a": {"x\ud800": 1, "\udfff": [2], "\ude00\ud83d": 3}}, {astral: "astral-only", "b": [1]}, {split: "split-only", "\ud800": {"\udc00": 4}},
+            {"a" + split + "b": [5], "a" + astral + "b": [6]}, [{split: {astral: {split: 7}}}]]
+    for doc in docs:
+        for text in ("$..*", "$.*", "$..[0]", "$[?@]", "$..[?@ != 0]"):
+            check_case(ctx, text, doc, "surrogates")
+        ctx.count("documents_with_surrogate_code_points_in_names")
+    import jsonpath
+
+    # written in the query itself: literally (two code points) and as escapes (the RFC reads an escaped pair as the one character)
+    d = docs[0]
+    for text, want in (("$['%s']" % split, ["split"]), ('$["%s"]' % split, ["split"]), ("$['%s']" % astral, ["astral"]), ("$['\\ud83d\\ude00']", ["astral"]), ("$.a['\ude00\ud83d']", [3]), ("$.a['x\ud800']", [1])):
+        o = impl.call(jsonpath.findall, text, d)
+        ctx.evaluation()
+        if not o.ok or o.value != want:
+            ctx.violation("name-with-surrogate-code-points-selects-another-member", {"kind": "surrogates"}, {"text": ascii(text), "got": o.desc() if not o.ok else ascii(o.value), "want": ascii(want)})
+            return
+
+
 def run_recursion_limit(ctx, limit):
     """Documents nested from half the interpreter's recursion limit up to beyond it (process default, and a lowered
     limit).  A refusal (RecursionError) is the interpreter's; every match that IS reported must carry the location of the
@@ -348,6 +371,7 @@ def run(spec, ctx):
             for text in ("$..leaf", "$..leaf[0]", "$..[?@.leaf]"):
                 check_case(ctx, text, v, "scale")
             ctx.cell("scale", "depth=%d" % depth)
+        run_surrogates(ctx)
         ctx.count("H2_matches_checked", hooks.STATE.h2_checked)
         return
     r = ctx.rng
@@ -392,6 +416,9 @@ def replay(case, ctx):
         return
     if case.get("kind") == "threads":
         run_threads(ctx, 12)
+        return
+    if case.get("kind") == "surrogates":
+        run_surrogates(ctx)
         return
     if case.get("kind") == "recursion-limit":
         run_recursion_limit(ctx, case.get("limit"))
